@@ -152,7 +152,20 @@ class A(StateFormula, CTLS.A):
     A class representing LTL A-formulas.
 
     '''
-    pass
+
+    def get_equivalent_restricted_formula(self):
+        r''' Return an equivalent formula in the restricted syntax.
+
+        LTL has neither :math:`E` nor the negation of a state formula, thus
+        the restricted syntax of a LTL formula :math:`A \rho` is :math:`A`
+        applied to the restricted syntax of the path formula :math:`\rho`.
+
+        :returns: a LTL formula :math:`A \rho'` where :math:`\rho'` avoids
+                  :math:`F`, :math:`G`, :math:`R`, :math:`\land` and
+                  :math:`\rightarrow` and is equivalent to :math:`\rho`
+        :rtype: LTL.A
+        '''
+        return A(self.subformula(0).get_equivalent_restricted_formula())
 
 
 alphabet = get_alphabet(__name__)
